@@ -44,6 +44,10 @@ def config_list(tier, seed):
         ("n3", 4, "fixed", "start", "lab", 10, 0, 6),
         ("uneven6", 1, "step", "middle", "cohort", 16, 4, 0),
         ("const10", 2, "fixed", "gl2", "both", 100, 20, 40),
+        # one label whose cohorts vanish within their first interval next to an ordinary one (stock-driven: the
+        # first is unspecified, the second must not be disturbed)
+        ("unit4", 2, "fixed", "middle", "lab", 2, 0, 30),
+        ("uneven4", 4, "fixed", "start", "both", 4, 0, 20),
     ]
     rnd = random.Random(seed * 7919 + 13)
     extra = []
